@@ -53,7 +53,7 @@ class Stack(Part):
     rule = ("4 generated themes over 10 names (some shadowing Rich defaults) x base theme (default or custom) x <=15 nested ops push(inherit)/pop/"
             "use_theme(inherit){...}[raises]; after every step every name, 7 definitions and 6 unparseable names are looked up and compared with a "
             "reference stack of (definitions, inherit); non-trivial = >=2 pushes live at once with one non-inheriting, and a lookup fell through >=2 levels")
-    budget = {"quick": (4, 700), "thorough": (16, 8000)}
+    budget = {"quick": (8, 1000), "thorough": (16, 8000)}
 
     def strategy(self, tier):
         return st.builds(lambda themes, base, ops: {"themes": themes, "base": base, "ops": ops}, st.lists(theme_spec(), min_size=4, max_size=4), st.one_of(st.none(), st.integers(0, 3)), st.lists(op_strategy(), min_size=1, max_size=8))
@@ -192,7 +192,7 @@ class Config(Part):
     name = "config"
     rule = ("themes with <=10 styles from the C06 style space (links may contain % # ; = :) x inherit: Theme.from_file(StringIO(theme.config)) has an equal "
             "name -> style map; non-trivial = >=3 styles including a link or hex colour")
-    budget = {"quick": (4, 600), "thorough": (16, 6000)}
+    budget = {"quick": (8, 600), "thorough": (16, 6000)}
 
     def strategy(self, tier):
         link = st.sampled_from(["https://a.b/%20x", "https://a.b/#frag", "https://a.b/?q=1;r=2", "https://a.b/x:y", "http://plain.example", "https://a.b/100%"])
